@@ -10,18 +10,18 @@ import (
 
 // Cfg is the per-run configuration drawn by the generator (swarm variation).
 type Cfg struct {
-	GCTTL   string `json:"gc_ttl,omitempty"`
-	GCGran  string `json:"gc_granularity,omitempty"`
+	GCTTL  string `json:"gc_ttl,omitempty"`
+	GCGran string `json:"gc_granularity,omitempty"`
 	// followers (C01/C02): clock offset and checkpoint cadence per audit replica
-	Followers []Follower `json:"followers,omitempty"`
-	Cut       int        `json:"cut,omitempty"`   // C02: -1 = enumerate every cut
-	Overlap   int        `json:"overlap,omitempty"` // C02: entries applied between Snapshot() and Persist()
-	Live      bool       `json:"live,omitempty"`  // C02: restore onto a live store holding another prefix
-	SinkFail  int        `json:"sink_fail,omitempty"`
-	ReadFail  int        `json:"read_fail,omitempty"`
-	WatchLimit int       `json:"watch_limit,omitempty"`
-	Perm      []int      `json:"perm,omitempty"`
-	Extra     map[string]string `json:"extra,omitempty"`
+	Followers  []Follower        `json:"followers,omitempty"`
+	Cut        int               `json:"cut,omitempty"`     // C02: -1 = enumerate every cut
+	Overlap    int               `json:"overlap,omitempty"` // C02: entries applied between Snapshot() and Persist()
+	Live       bool              `json:"live,omitempty"`    // C02: restore onto a live store holding another prefix
+	SinkFail   int               `json:"sink_fail,omitempty"`
+	ReadFail   int               `json:"read_fail,omitempty"`
+	WatchLimit int               `json:"watch_limit,omitempty"`
+	Perm       []int             `json:"perm,omitempty"`
+	Extra      map[string]string `json:"extra,omitempty"`
 }
 
 type Follower struct {
